@@ -141,6 +141,40 @@ pub fn clamp_r(k: &[u8]) -> [u8; 16] {
 /// given the Poly1305 key half r and `prefix` (a whole number of 16-byte blocks), returns the 16-byte final block
 /// for which the accumulator after the last multiplication is ≡ v (mod p)
 pub fn solve_last_block(r_key: &[u8], prefix: &[u8], v: u64) -> Option<[u8; 16]> {
+    solve_block_for(r_key, prefix, Fe::small(v))
+}
+
+/// targets that stress carry chains between limbs of any radix in use (26, 32, 44, 64 bits): the accumulator value
+/// X * 2^j + d (a long run of zero bits above a tiny low part) or X * 2^j - 1 - d (a long run of one bits), as 17
+/// little-endian bytes; `x` supplies the high part
+pub fn limb_edge_target(j: u32, below: bool, d: u8, x: u128) -> Fe {
+    // value < 2^130: keep 130 - j bits of x
+    let hi_bits = 130 - j;
+    let xh: u128 = if hi_bits >= 128 { x } else { x & ((1u128 << hi_bits) - 1) };
+    let xh = xh.max(1);
+    // 136-bit little-endian integer xh << j
+    let mut bytes = [0u8; 33];
+    let sh_bytes = (j / 8) as usize;
+    let sh_bits = j % 8;
+    let wide = xh.to_le_bytes();
+    let mut carry = 0u16;
+    for i in 0..16 {
+        let v = ((wide[i] as u16) << sh_bits) | carry;
+        bytes[sh_bytes + i] = (v & 0xff) as u8;
+        carry = v >> 8;
+    }
+    bytes[sh_bytes + 16] = carry as u8;
+    let base = Fe::from_le(&bytes[..17]);
+    if below {
+        base.sub(Fe::small(1 + d as u64))
+    } else {
+        base.add(Fe::small(d as u64))
+    }
+}
+
+/// as `solve_last_block` for an arbitrary target value of the accumulator
+pub fn solve_block_for(r_key: &[u8], prefix: &[u8], target: Fe) -> Option<[u8; 16]> {
+    let v = target;
     assert!(prefix.len() % 16 == 0);
     let r = Fe::from_le(&clamp_r(r_key));
     if r.reduce() == Fe::small(0) {
@@ -153,7 +187,7 @@ pub fn solve_last_block(r_key: &[u8], prefix: &[u8], v: u64) -> Option<[u8; 16]>
     }
     let rinv = r.pow_p_minus_2();
     debug_assert!(r.mul(rinv) == Fe::small(1));
-    let c = Fe::small(v).mul(rinv).sub(h).sub(two128);
+    let c = v.mul(rinv).sub(h).sub(two128);
     c.to_u128().map(|x| x.to_le_bytes())
 }
 
